@@ -197,6 +197,12 @@ func body(s *simrt.Sim, tier string) {
 	var runReturned, closeReturned atomic.Uint64
 	start := time.Now()
 
+	// with a cancellation in the run (term 1, 3), half of the time the consumer leaves at that instant
+	goneAfterCancel := (term == 1 || term == 3) && s.Choose(2, "goneAfterCancel") == 0
+	var goneC <-chan struct{}
+	if goneAfterCancel {
+		goneC = ctx.Done()
+	}
 	s.Go("runner", func() {
 		runErr = rl.Run(ctx, ch)
 		s.Yield("run.ret")
@@ -204,6 +210,12 @@ func body(s *simrt.Sim, tier string) {
 	})
 	s.Go("consumer", func() {
 		for !stopConsumer.Load() {
+			if goneAfterCancel && ctx.Err() != nil {
+				// whoever cancelled the context is no longer interested in signals: nobody reads the channel
+				// any more, and Run and Close return all the same
+				s.Fault("consumer.gone")
+				return
+			}
 			got := false
 			tm := time.NewTimer(10 * time.Second)
 			var stallC <-chan time.Time
@@ -226,6 +238,7 @@ func body(s *simrt.Sim, tier string) {
 					}
 				case <-stallC:
 					stalled = true
+				case <-goneC:
 				case <-tm.C:
 				}
 			})
